@@ -33,6 +33,10 @@ pub struct Cycle {
     /// creates its hint file), so that the writer is left with unfinished business
     #[serde(default)]
     pub failed_merge_before_drop: bool,
+    /// hold the background worker at its schedule point right after the merge timer fired ("about
+    /// to merge"), drop the store there, then let the worker go on
+    #[serde(default)]
+    pub drop_when_about_to_merge: bool,
 }
 
 #[derive(Clone, Debug, Serialize, Deserialize)]
@@ -56,14 +60,16 @@ fn strategy(tier: Tier) -> BoxedStrategy<CloseCase> {
         proptest::collection::vec((prop_oneof![2 => Just(0u8), 4 => Just(1u8), 2 => Just(2u8), 1 => Just(3u8)], any::<u8>()), 1..12),
         any::<bool>(),
         prop_oneof![3 => Just(false), 1 => Just(true)],
+        prop_oneof![2 => Just(false), 1 => Just(true)],
     )
-        .prop_map(|(prefix, clones, drop_delay_us, post, reopen_at_once, failed_merge_before_drop)| Cycle {
+        .prop_map(|(prefix, clones, drop_delay_us, post, reopen_at_once, failed_merge_before_drop, drop_when_about_to_merge)| Cycle {
             prefix,
             clones,
             drop_delay_us,
             post,
             reopen_at_once,
             failed_merge_before_drop,
+            drop_when_about_to_merge,
         });
     (
         any::<bool>(),
@@ -280,9 +286,49 @@ fn exec(c: &CloseCase, env: &Env) -> Outcome {
         if cy.drop_delay_us > 0 {
             std::thread::sleep(Duration::from_micros(cy.drop_delay_us as u64));
         }
+        // "about to merge": hold the worker right after its merge timer fired, drop there
+        let mut held_about_to_merge = false;
+        let gate = std::sync::Arc::new((std::sync::Mutex::new((false, false)), std::sync::Condvar::new())); // (arrived, released)
+        if cy.drop_when_about_to_merge && c.policy_always && c.check_interval_ms <= 200 {
+            let g2 = gate.clone();
+            bitcask::storage::bitcask::verif_set_schedule_hook(Some(std::sync::Arc::new(move |name: &'static str| {
+                if name != "merge-timer-fired" {
+                    return;
+                }
+                let (m, cv) = &*g2;
+                let mut st = m.lock().unwrap();
+                if st.0 {
+                    return; // only the first arrival is held
+                }
+                st.0 = true;
+                cv.notify_all();
+                let t0 = Instant::now();
+                while !st.1 && t0.elapsed() < Duration::from_secs(5) {
+                    st = cv.wait_timeout(st, Duration::from_millis(50)).unwrap().0;
+                }
+            })));
+            // wait for the worker to arrive (its timer is at most 200 ms * 2 away)
+            let (m, cv) = &*gate;
+            let mut st = m.lock().unwrap();
+            let t0 = Instant::now();
+            while !st.0 && t0.elapsed() < Duration::from_millis(c.check_interval_ms * 2 + 300) {
+                st = cv.wait_timeout(st, Duration::from_millis(10)).unwrap().0;
+            }
+            held_about_to_merge = st.0;
+        }
         let fp_at_drop = dir_fingerprint(&dir);
         let names_at_drop: Vec<String> = fp_at_drop.keys().cloned().collect();
         drop(store);
+        if cy.drop_when_about_to_merge && c.policy_always && c.check_interval_ms <= 200 {
+            // let the worker go on: it must notice that the store is closed and not merge
+            let (m, cv) = &*gate;
+            m.lock().unwrap().1 = true;
+            cv.notify_all();
+            bitcask::storage::bitcask::verif_set_schedule_hook(None);
+            if held_about_to_merge {
+                out.label("dropped-while-worker-was-about-to-merge");
+            }
+        }
         // (1) every operation through any remaining handle fails with 'closed'
         if let Err(f) = post_ops(&handles, &keys, &cy.post, ci as u64) {
             out.fatal = f.0 == "post-drop-op-hung";
@@ -338,17 +384,23 @@ fn exec(c: &CloseCase, env: &Env) -> Outcome {
         if !at_once {
             let before = dir_fingerprint(&dir);
             // without timer-driven merges nothing at all may have changed since the drop, the
-            // first round of post-drop operations included
-            if !c.policy_always && before != fp_at_drop {
+            // first round of post-drop operations included; the same holds when the worker was
+            // held right after its timer fired: no merge was in flight, none may start later
+            if (!c.policy_always || held_about_to_merge) && before != fp_at_drop {
                 let new: Vec<&String> = before.keys().filter(|k| !fp_at_drop.contains_key(*k)).collect();
                 fail = Some((
                     "post-drop-op-changed-disk".into(),
                     format!(
-                        "cycle {}: operations through handles of a dropped store changed the directory ({} -> {} files; new: {:?})",
+                        "cycle {}: the directory changed after the store object was dropped ({} -> {} files; new: {:?}){}",
                         ci,
                         fp_at_drop.len(),
                         before.len(),
-                        new
+                        new,
+                        if held_about_to_merge {
+                            "; the worker was held right after its merge timer fired, so no merge was in flight at the drop: a merge pass ran on the closed store"
+                        } else {
+                            "; no timer-driven merge exists in this configuration: an operation through a remaining handle changed the disk"
+                        }
                     ),
                 ));
                 break;
@@ -432,7 +484,7 @@ pub fn prop() -> Prop<CloseCase> {
     Prop {
         id: "C17",
         level: "exploration",
-        rule: "Cases: a configuration (merge policy always/never with triggers that the history exceeds, check interval 1 ms .. 1 h, jitter 0-1, sync none/always/interval 5-100 ms, small max_file_size) and 1-8 (30 thorough) open/close cycles; each cycle runs generated sets/deletes, takes 0-3 handle clones, in a quarter of the cycles (policy never) first runs one merge pass that fails half-way through an injected transient ENOSPC, drops the store object after a generated delay (0-30 ms, so the worker is sleeping, about to merge, merging or syncing), then applies generated set/get/del/merge through the remaining handles. Oracles: every such op returns Error::Closed; the worker thread disappears (thread count back to baseline and no thread named bitcask-background-tasks) within 5 s even with a timer an hour away; once it is gone a fingerprint of the directory (names, sizes, content hashes) is identical before and after another round of post-drop ops; the directory reopens (at once, before the old worker has exited, where no merge can be in flight) and reads as the model; after all cycles and dropping all handles, thread and open-file counts equal the baseline. Non-trivial: a cycle with set, get and del after the drop and a timer >= 60 s away; distinct = distinct hash of the case.",
+        rule: "Cases: a configuration (merge policy always/never with triggers that the history exceeds, check interval 1 ms .. 1 h, jitter 0-1, sync none/always/interval 5-100 ms, small max_file_size) and 1-8 (30 thorough) open/close cycles; each cycle runs generated sets/deletes, takes 0-3 handle clones, in a quarter of the cycles (policy never) first runs one merge pass that fails half-way through an injected transient ENOSPC, drops the store object after a generated delay (0-30 ms, so the worker is sleeping, merging or syncing) or - through the `verif` schedule point in the background task - exactly when the worker's merge timer has fired and the merge has not started (about to merge), then applies generated set/get/del/merge through the remaining handles. Oracles: every such op returns Error::Closed; the worker thread disappears (thread count back to baseline and no thread named bitcask-background-tasks) within 5 s even with a timer an hour away; once it is gone a fingerprint of the directory (names, sizes, content hashes) is identical before and after another round of post-drop ops; the directory reopens (at once, before the old worker has exited, where no merge can be in flight) and reads as the model; after all cycles and dropping all handles, thread and open-file counts equal the baseline. Non-trivial: a cycle with set, get and del after the drop and a timer >= 60 s away; distinct = distinct hash of the case.",
         assumptions: &[
             "reopening at once is asserted only where no merge can be in flight at the drop (policy never, or the timer far away): the property lists sleeping, about to merge and syncing as the drop moments; otherwise the old worker is awaited before the reopen",
             "5 s bounds for thread exit; the fd/thread baseline is taken in the same process right before the case",
